@@ -308,3 +308,11 @@ class Inliner:
                 self.process_function(fi)
             except RecursionError:
                 self.refused.append((q, '?', 'recursion'))
+            # calls of new helpers that are still there (nested in an expression, or refused above)
+            seen = {(c, h) for c, h, _ in self.refused}
+            for c in ast.walk(fi.node):
+                if isinstance(c, ast.Call):
+                    callee, _ = self.resolve(fi, c)
+                    if callee is not None and callee.qual in self.new and callee.qual != q and (q, callee.qual) not in seen:
+                        seen.add((q, callee.qual))
+                        self.refused.append((q, callee.qual, 'called inside an expression'))
